@@ -55,6 +55,8 @@ pub enum Timeout {
     None,
     Short(u16),
     Long,
+    /// practically infinite: Duration::MAX, u64::MAX s, ~136 000 years, 1000 years
+    Huge(u8),
 }
 
 #[derive(Clone, Debug, Serialize, Deserialize)]
@@ -77,7 +79,7 @@ fn strat(_: &Ctx) -> BoxedStrategy<Case> {
     let host = prop_oneof![3 => Just(Host::V4), 3 => Just(Host::Localhost), 1 => Just(Host::V6), 2 => Just(Host::Absent), 2 => Just(Host::SockExisting), 1 => Just(Host::SockMissing), 1 => Just(Host::SockWithColon)];
     let port = prop_oneof![3 => Just(Port::Absent), 5 => Just(Port::Listening), 2 => Just(Port::Closed), 1 => Just(Port::Zero), 1 => Just(Port::NonNumeric)];
     let stream = prop_oneof![6 => Just(Stream::None), 2 => Just(Stream::Tcp), 2 => Just(Stream::Unix), 1 => Just(Stream::Invalid)];
-    let timeout = prop_oneof![3 => Just(Timeout::None), 2 => (100u16..300).prop_map(Timeout::Short), 2 => Just(Timeout::Long)];
+    let timeout = prop_oneof![3 => Just(Timeout::None), 2 => (100u16..300).prop_map(Timeout::Short), 2 => Just(Timeout::Long), 1 => (0u8..4).prop_map(Timeout::Huge)];
     let raw = proptest::option::weighted(
         0.06,
         proptest::sample::select(&["", "ldap", "ldap:", "://localhost", "ldap://:389/", "ldap://127.0.0.1:99999/", "ldap://[::1/", "ldap://exa mple/", "ldap:x", "ldaps:x", "ldapi:x", "ldap://", "ldaps://", "ldapi://", "ldap:/x", "\u{0}", "ldap://%/", "ldapi://%2F:1:2/"][..]).prop_map(String::from),
@@ -450,6 +452,14 @@ pub fn check(c: &Case, obs: &mut Obs) -> Result<(), Fail> {
             Timeout::None => {}
             Timeout::Short(ms) => s = s.set_conn_timeout(Duration::from_millis(ms as u64)),
             Timeout::Long => s = s.set_conn_timeout(Duration::from_secs(10)),
+            Timeout::Huge(k) => {
+                s = s.set_conn_timeout(match k {
+                    0 => Duration::MAX,
+                    1 => Duration::from_secs(u64::MAX),
+                    2 => Duration::from_secs(u32::MAX as u64 * 1000),
+                    _ => Duration::from_secs(86_400 * 365 * 1000),
+                })
+            }
         }
         match c.stream {
             Stream::None => {}
@@ -589,7 +599,7 @@ pub fn property() -> Property {
     Property {
         id: "C18",
         level: "exploration",
-        rule: "generated URL x settings combinations through both LdapConnAsync::with_settings and LdapConn::with_settings against real loopback endpoints: scheme {ldap, LDAP, ldaps, ldapi, ldapx, http} x host {127.0.0.1, localhost, [::1], absent, percent-encoded socket path existing / missing / containing %3A} x port {absent (default 389/636 listeners bound by the harness), a listening port, a closed port, 0, non-numeric} x path/query noise x StartTLS flag x pre-opened stream {none, connected TCP, Unix pair, Invalid} x conn_timeout {none, 100-300 ms, 10 s} x server {cooperative, silent during StartTLS}, plus syntactically broken URLs. Oracle: a reference model of the documented dispatch (DESIGN.md Appendix C) predicts Ok and WHICH endpoint must receive the connection (per-case listeners count accepts), or Err (Timeout for the silent-server case); a panic is always a violation; the silent-server case is a violation only if the client is still blocked after 100x the deadline. Non-trivial: any combination other than plain ldap://host:port with defaults. Distinct = debug rendering of the case.",
+        rule: "generated URL x settings combinations through both LdapConnAsync::with_settings and LdapConn::with_settings against real loopback endpoints: scheme {ldap, LDAP, ldaps, ldapi, ldapx, http} x host {127.0.0.1, localhost, [::1], absent, percent-encoded socket path existing / missing / containing %3A} x port {absent (default 389/636 listeners bound by the harness), a listening port, a closed port, 0, non-numeric} x path/query noise x StartTLS flag x pre-opened stream {none, connected TCP, Unix pair, Invalid} x conn_timeout {none, 100-300 ms, 10 s, practically infinite incl. Duration::MAX} x server {cooperative, silent during StartTLS}, plus syntactically broken URLs. Oracle: a reference model of the documented dispatch (DESIGN.md Appendix C) predicts Ok and WHICH endpoint must receive the connection (per-case listeners count accepts), or Err (Timeout for the silent-server case); a panic is always a violation; the silent-server case is a violation only if the client is still blocked after 100x the deadline. Non-trivial: any combination other than plain ldap://host:port with defaults. Distinct = debug rendering of the case.",
         assumptions: &[
             "ports 389/636 on 127.0.0.1 and ::1 are bound by the harness; if they cannot be bound those sub-cases are skipped (labelled), never reported",
             "for URLs the documentation does not define (raw broken/authority-less URLs) only a panic is a violation",
